@@ -2131,6 +2131,8 @@ def apply(repo) -> dict:
             _unroll_literal_quantifiers(f.node)
             _hoist_if_walrus(f.node)
             _lower_classifying_setcomps(f.node)
+            from .repo import _fuse_filter_pipeline
+            _fuse_filter_pipeline(f.node)
         # a loop over a list that was only built to be looped over is the loop over its source (everywhere: collecting
         # first and looping afterwards is a common way to write the same scan)
         if _unfold_comprehension_loops(f.node):
